@@ -725,3 +725,29 @@ Definition guard_ttsv (s : vec) (vlen : Z) (skip : option Z) : res unit :=
   let d := ndim s in let n0 := sz s 0 in let dnew := ttsv_dnew skip in
   if 0 <? d - dnew then chk (zprod s =? n0 ^ d) ;; chk (n0 =? vlen)
   else if 2 <=? dnew then chk (zprod s =? n0 ^ dnew) else Ok tt.
+
+(* ttensor.reconstruct(samples, modes), one sample array per listed mode: "len(samples) > 0 and len(samples) != len(modes)" is the
+   only written test; then "full_samples[mode] = sample" on a Python list of ndims entries (IndexError outside [-ndims, ndims); a
+   negative mode wraps around, a repeated mode overwrites: C19-N29, open); the samples of the stream (row 0) are valid everywhere *)
+Definition pre_reconstruct (s modes : vec) (nsamp : Z) : bool := modes_ok (ndim s) modes && (nsamp =? zlen modes).
+Definition guard_reconstruct (s modes : vec) (nsamp : Z) : res unit :=
+  chk (nsamp =? zlen modes) ;;
+  chk (forallb (fun m => (- ndim s <=? m) && (m <? ndim s)) modes).
+
+(* ktensor.score(other, threshold): "self.shape == other.shape", "0.0 <= threshold <= 1.0" (thr_ok: the descriptor says whether the
+   threshold handed over lies in [0, 1]; None stands for 0.99 ** ndims), "RA < RB" — in this order, before anything is computed *)
+Definition pre_score (s u : vec) (ra rb : Z) (thr_ok : bool) : bool := shape_eqb s u && (rb <=? ra) && thr_ok.
+Definition guard_score (s u : vec) (ra rb : Z) (thr_ok : bool) : res unit :=
+  chk (shape_eqb s u) ;; chk thr_ok ;; chk (negb (ra <? rb)).
+
+(* sptensor.subdims(region) with k keys (each a valid list): "len(region) != self.ndims" *)
+Definition pre_subdims (s : vec) (k : Z) : bool := k =? ndim s.
+Definition guard_subdims (s : vec) (k : Z) : res unit := if negb (k =? ndim s) then Err else Ok tt.
+
+(* ktensor.from_vector(data, shape, contains_weights) with n = len(data): "len(data) / (sum(shape) [+ 1])" (ZeroDivisionError), then
+   "round(num_components) != num_components"; the blocks that are cut out afterwards fit by construction *)
+Definition pre_from_vector (n : Z) (shape : vec) (cw : bool) : bool :=
+  let d := zsum shape + (if cw then 1 else 0) in negb (d =? 0) && (n mod d =? 0).
+Definition guard_from_vector (n : Z) (shape : vec) (cw : bool) : res unit :=
+  let d := zsum shape + (if cw then 1 else 0) in
+  (if d =? 0 then Err else Ok tt) ;; (if negb (n mod d =? 0) then Err else Ok tt).
